@@ -10,6 +10,7 @@ import functools
 import itertools
 import json
 import os
+import signal
 
 import streams_common as sc
 
@@ -21,7 +22,11 @@ RULE = ("corpus; single-function boundary grid (lists of size 0..3(4), tuple and
         "at least one function applied to a non-empty collection; distinct = distinct (source, stages); groupBy's aggregator "
         "protocol: [key, value] pairs with group sizes 1..3 in every order (values ints / strings / pairs / lists), aggregators in "
         "the new style, the pre-1.1.1 style and ones failing on a later group (IndexError, NoMatchingMethod), contexts with "
-        "group_by_agg_fallback on and off, result or error class compared with the state machine gagg_run")
+        "group_by_agg_fallback on and off, result or error class compared with the state machine gagg_run; collection.name over "
+        "dict elements (key present / missing / null) in the standard context, in yaql.legacy contexts with the legacy engine and "
+        "in child contexts with a host overload of `.` for mappings; every sixth case whose text has no `=>` once more in a "
+        "yaql.legacy context; O: sum/aggregate/accumulate/min/max over binary64 floats with inexact partial sums and cancellation, "
+        "tuple and iterator receivers, bit-exact (float.hex) against the left fold")
 TRUSTED = ["Model/Queries.v + Model/Streams.v are hand transcriptions of queries.py / collections.py / utils.memorize; "
            "tied by this correspondence (vm_compute inside Coq)",
            "harness/streams_common.py: printers of values, lambdas and stages into yaql text and into Gallina"]
@@ -191,6 +196,46 @@ def aggregator_grid(run):
     return out
 
 
+ACCESSES = [("std",), ("legacy",), ("host", -1), ("host", 7)]
+
+
+def attribution_grid(run):
+    """collection.name over dict elements (the key present everywhere / missing somewhere / null-valued), in the standard
+    context, in yaql.legacy contexts (legacy engine) and in child contexts where the host overrides `.` for mappings"""
+    out = []
+    recsets = [({"a": 1}, {"a": 2, "b": 3}), ({"a": 1}, {"b": 2}), ({"b": 2}, {"a": 1}), (), ({"a": 1}, {"b": 2}, {"a": 3, "b": 4}),
+               ({"a": None}, {"a": 2}), ({"b": 0, "a": 5}, {"a": 5, "b": 0}, {"a": 6})]
+    follows = [None, ("take", 1), ("len",), ("distinct", None), ("toList",)]
+    for recs in recsets:
+        for acc in ACCESSES:
+            for name in ("a", "b"):
+                for j, follow in enumerate(follows):
+                    out.append((("iter" if j % 2 else "tuple", recs), [("attrx", name, acc)] + ([follow] if follow else [])))
+    for _ in range(run.n(300, 4000)):
+        rng = run.rng
+        recs = tuple({k: rng.choice([0, 1, 2, 5, None]) for k in rng.choice([("a",), ("a", "b"), ("b", "a"), ("b",), ("a", "c")])}
+                     for _ in range(rng.randrange(0, 6)))
+        stages = []
+        if rng.random() < 0.4:
+            stages.append(rng.choice([("skip", 1), ("take", 2), ("reverse",), ("take", 4), ("memorize",)]))
+        stages.append(("attrx", rng.choice(["a", "a", "b", "c"]), rng.choice(ACCESSES)))
+        if rng.random() < 0.5:
+            stages.append(rng.choice([("take", 1), ("take", 2), ("len",), ("distinct", None), ("toList",), ("reverse",), ("skip", 1),
+                                      ("first", sc.NOSEED), ("enumerate", None)]))
+        out.append(((rng.choice(["tuple", "iter"]), recs), stages))
+    return out
+
+
+def legacy_ok(src, stages):
+    """cases that mean the same in a yaql.legacy context (which redefines dicts as iterables, range, toList, tuples, `=>`)"""
+    return src[0] in ("tuple", "iter") and not any(
+        s[0] in ("self", "attrx", "groupByG", "toList", "dictFromItems", "toDict", "keysList", "valuesList", "itemsList", "isList",
+                 "isDict", "isIterable", "joinRange", "unpackNamed", "unpackIdx", "with", "listOf", "in", "index", "indexDefault",
+                 "zipLongest", "mergeWithX", "groupByAgg", "dictSetMany", "dictSetInline",
+                 # legacy lists are Python lists and input tuples stay tuples: what is hashable differs by design
+                 "toSet", "distinct", "groupBy", "groupByAggP", "groupByLegacy") for s in stages)
+
+
 def hashed_grid():
     """EQUAL dicts with different insertion orders through every use of a hash: distinct (with and without selector),
     sets and set algebra, membership, groupBy / toDict keys, dict keys"""
@@ -237,6 +282,9 @@ def correspondence(run):
     for src, stages in hashed_grid():
         for literal in (False, True):
             todo.append((src, stages, literal, None, sc.CONVS[len(todo) % 3]))
+    for src, stages in attribution_grid(run):
+        legacy = any(s[0] == "attrx" and s[2][0] == "legacy" for s in stages)
+        todo.append((src, stages, False, None, "camel" if legacy else sc.CONVS[len(todo) % 3]))
     for src, stages in aggregator_grid(run):
         todo.append((src, stages, len(todo) % 5 == 0 and src[0] == "tuple", None, sc.CONVS[len(todo) % 3]))
     n = run.n(2500, 40000)
@@ -245,10 +293,17 @@ def correspondence(run):
         literal = run.rng.random() < 0.4
         aliases = [run.rng.randrange(2) for _ in stages]
         todo.append((src, stages, literal, aliases, run.rng.choice(["camel", "camel", "camel", "python", "custom"])))
+    # a slice of every stage family once more in a yaql.legacy context with the legacy engine (same model)
+    for j, (src, stages, literal, aliases, conv) in enumerate(list(todo)):
+        if j % 6 == 0 and legacy_ok(src, stages):
+            if "=>" in sc.pipeline_text(sc.source_setup(src, False)[0], stages, aliases=aliases):
+                continue            # `=>` builds a tuple in the legacy grammar (no keyword arguments, no dict literals)
+            todo.append((src, stages, False, aliases, "camel" + sc.LEGACY))
     cases, meta = [], []
     for src, stages, literal, aliases, conv in todo:
         text, o = observe(src, stages, literal, aliases, conv)
-        run.count("convention:" + conv)
+        run.count("convention:" + sc.base_conv(conv))
+        run.count("context:" + ("yaql.legacy" if sc.LEGACY in sc.fb_conv(stages, conv) else "host overload of ." if "!dot" in sc.fb_conv(stages, conv) else "standard"))
         nontriv = bool(stages) and not (src[0] in ("tuple", "iter", "set", "dict") and len(src[1]) == 0) or src[0] in ("generate", "generateMany", "sequence")
         run.case((src, sc.stages_json(stages)), nontrivial=nontriv)
         run.count("source:" + src[0])
@@ -370,8 +425,8 @@ def kinds_block(run, todo):
     O: the census - no Python list / dict / mutable set anywhere in what a function of the two modules hands on"""
     cases, meta = [], []
     for src, stages, literal, aliases, conv in todo:
-        if src[0] in ("recs",) or any(s[0] in ("self",) for s in stages):
-            continue
+        if src[0] in ("recs",) or any(s[0] in ("self",) for s in stages) or sc.LEGACY in sc.fb_conv(stages, conv):
+            continue            # (yaql.legacy contexts hand on Python lists by design: the census is about the standard library)
         text0, _ = sc.source_setup(src, literal)
         text = sc.conv_text(sc.pipeline_text(text0, stages, aliases=aliases), conv)
         try:
@@ -789,7 +844,99 @@ def differential(run, lists):
                               "finding_class": F18 if is_f18 else None})
 
 
+# ---- fold-like functions over binary64: the model's fold is over an abstract `+`; here it is instantiated with Python floats
+FLOAT_LISTS = [(0.1, 0.2, 0.3), (1e16, 1.0, -1e16), (0.1,) * 10, (1, 0.1, 2, 0.2), (1e100, 1.0, -1e100, 1.0), (0.1, 0.7, 0.2), (3.5,),
+               (1e-16, 1.0, 1e-16, -1.0), (2 ** 53, 1.0, 1.0), (0.3, 0.2, 0.1), (7, 0.1, 0.2), (0.1, 0.2, 7)]
+FLOAT_POOL = [0.1, 0.2, 0.3, 0.7, 1e16, -1e16, 1.0, -1.0, 1e-3, 2.5, 3, 7, 1e100, -1e100, 2 ** 53, 1e-16]
+
+
+def fhex(v):
+    if isinstance(v, float):
+        return v.hex()
+    if isinstance(v, (list, tuple)):
+        return tuple(fhex(x) for x in v)
+    return v
+
+
+def raw_eval(text, data, ctx=None, eng=None):
+    old = signal.signal(signal.SIGALRM, sc._alarm)
+    signal.alarm(20)
+    try:
+        return ("val", fhex((eng or sc.engine_opts(limit=2000))(text).evaluate(data=data, context=ctx if ctx is not None else sc.context())))
+    except BaseException as e:
+        if isinstance(e, (KeyboardInterrupt, SystemExit)):
+            raise
+        return ("err", sc.err_class(e), "%s: %s" % (type(e).__name__, str(e)[:100]))
+    finally:
+        signal.alarm(0)
+        signal.signal(signal.SIGALRM, old)
+
+
+def float_fold_laws(run):
+    """sum / aggregate / accumulate / min / max over floats whose partial sums are inexact or cancel: BIT-EXACTLY the left
+    fold of Python's `+` (resp. of the comparison), for tuple and iterator receivers, with and without an initial value"""
+    import functools
+    import itertools
+    import operator
+    lists = list(FLOAT_LISTS)
+    for _ in range(run.n(40, 600)):
+        lists.append(tuple(run.rng.choice(FLOAT_POOL) for _ in range(run.rng.randrange(1, 9))))
+    add = operator.add
+    for l in lists:
+        fold = functools.reduce(add, l)
+        req = [("$.sum()", fold), ("$.sum(0.5)", functools.reduce(add, l, 0.5)), ("$.sum(0)", functools.reduce(add, l, 0)),
+               ("$.aggregate($1 + $2)", fold), ("$.aggregate($1 + $2, 0.25)", functools.reduce(add, l, 0.25)),
+               ("$.accumulate($1 + $2)", tuple(itertools.accumulate(l))), ("$.toList().sum()", fold),
+               ("$.select($).sum()", fold), ("$.reverse().sum()", functools.reduce(add, l[::-1])),
+               ("$.memorize().sum(0.5)", functools.reduce(add, l, 0.5)), ("$.append(0.1).sum()", functools.reduce(add, l + (0.1,))),
+               ("$.min()", functools.reduce(lambda a, b: a if b > a else b, l)), ("$.max()", functools.reduce(lambda a, b: b if b > a else a, l))]
+        for text, want in req:
+            for kind in ("tuple", "iter"):
+                o = raw_eval(text, list(l) if kind == "tuple" else iter(list(l)))
+                run.case(("float", l, text, kind))
+                run.count("float fold:" + text.split("(")[0][2:])
+                if o != ("val", fhex(want)):
+                    law_fail(run, "float fold: %s is the left fold over the elements in order" % text, text, [repr(x) for x in l], kind, o,
+                             "bit-exactly %r = %r (left fold of Python's binary64 `+` / comparison)" % (fhex(want), want),
+                             {"theorems": ["C13_accumulate_aggregate"]})
+                    return
+
+
+def attribution_laws(run):
+    """collection.name == collection.select($.name) == the map of the context's member access: standard context (d[key]),
+    yaql.legacy (d.get(key)) with the legacy engine, a child context with a host overload of `.` for mappings"""
+    datas = [({"a": 1}, {"a": 2, "b": 3}), ({"a": 1}, {"b": 2}), ({"b": 2}, {"a": 1}, {"a": 3}), (), ({"a": None},)]
+    for _ in range(run.n(20, 300)):
+        datas.append(tuple({k: run.rng.randrange(0, 5) for k in run.rng.choice([("a",), ("a", "b"), ("b",), ("b", "a")])}
+                           for _ in range(run.rng.randrange(0, 5))))
+    ctxs = [("the standard context", "camel", False, lambda d, k: d[k]),
+            ("a yaql.legacy context (legacy engine)", "camel" + sc.LEGACY, True, lambda d, k: d.get(k)),
+            ("a child context whose host overloads `.` for mappings with d.get(key, -1)", "camel!dot-1", False, lambda d, k: d.get(k, -1)),
+            ("a yaql.legacy context with a host overload of `.` on top", "camel" + sc.LEGACY + "!dot7", True, lambda d, k: d.get(k, 7))]
+    for data in datas:
+        for what, conv, legacy, access in ctxs:
+            for name in ("a", "b"):
+                try:
+                    want = ("val", tuple(access(d, name) for d in data))
+                except KeyError:
+                    want = ("err", "EKey")
+                for kind in ("tuple", "iter"):
+                    mk = (lambda: [dict(d) for d in data]) if kind == "tuple" else (lambda: iter([dict(d) for d in data]))
+                    eng = sc.engine_opts(limit=2000, legacy=legacy)
+                    a = raw_eval("$.%s" % name, mk(), sc.context(conv), eng)
+                    b = raw_eval("$.select($.%s)" % name, mk(), sc.context(conv), eng)
+                    run.case(("attribution", data and tuple(tuple(d.items()) for d in data), conv, name, kind))
+                    run.count("attribution law")
+                    if a[:2] != want or b[:2] != want:
+                        law_fail(run, "attribution: collection.name = collection.select($.name) = map of the context's member access",
+                                 "$.%s  /  $.select($.%s)  in %s" % (name, name, what), [sorted(d.items()) for d in data], kind, (a, b),
+                                 "both %r" % (want,), {"theorems": ["C13_collection_attribution"]})
+                        return
+
+
 def oracle(run, deep):
+    float_fold_laws(run)
+    attribution_laws(run)
     path = os.path.join(HERE, "corpus", "C13.json")
     if os.path.exists(path):
         for c in json.load(open(path)):
@@ -836,6 +983,11 @@ def replay(run, data):
         src, stages = src_from_json(d["src"]), sc.stages_from_json(d["stages"])
         _, o = observe(src, stages, d.get("literal", False), None, d.get("conv", "camel"))
         return not run.coq_mismatches(sc.HEADER, "case", "case_ok", [sc.case_term(src, stages, o)])
+    if kind == "law" and d.get("law", "").startswith(("float fold", "attribution")):
+        before = len(run.failures)
+        float_fold_laws(run)
+        attribution_laws(run)
+        return len(run.failures) == before
     if kind == "law" and d.get("law", "").startswith("value use"):
         before = len(run.failures)
         value_use_laws(run)
